@@ -71,6 +71,8 @@ class Runs(Part):
         rec = jobrec.Rec(dim=dim, m=m, bounds=[list(box) for _ in range(dim)], script=script, mode="serial")
         # objectives of large magnitude: better and worse designs differ only in the 9th..16th significant digit
         rec.cost_offset = srng.choice([0.0, 0.0, 0.0, 1e9, -1e6]) if alg_name in ("nsga2", "epsmoea") else 0.0
+        # stepped objectives (costs in steps of 0.1 or 0.25): exact ties in single objectives between different designs
+        rec.cost_quant = srng.choice([1, 1, 10 ** 8, 25 * 10 ** 7]) if alg_name in ("nsga2", "epsmoea") else 1
         dynamic_registration(rec)
         if alg_name == "nsga2":
             from artap.algorithm_NSGAII import NSGAII as A
